@@ -303,13 +303,25 @@ func c05Run(in string) string {
 
 func c05key(r *vu.RNG) []byte {
 	l := 1 + r.Intn(3)
-	if r.Chance(1, 10) {
-		l = r.Intn(5)
+	if r.Chance(1, 8) {
+		l = r.Intn(6)
 	}
 	b := make([]byte, l)
 	alpha := []byte{0x00, 0x01, 0x10, 0x11, 0x12, 0x1f, 0xa0, 0xab, 0xff}
 	for i := range b {
 		b[i] = alpha[r.Intn(len(alpha))]
+	}
+	if r.Chance(1, 10) {
+		// long keys with long common prefixes: partial keys of more than 63 and more than 318 nibbles
+		pl := []int{31, 32, 33, 40, 159, 160, 161}[r.Intn(7)]
+		p := make([]byte, pl)
+		for i := range p {
+			p[i] = byte(0x30 + i%7)
+		}
+		if r.Chance(1, 2) {
+			p[pl-1] ^= 0x0f
+		}
+		b = append(p, b...)
 	}
 	return b
 }
@@ -319,6 +331,9 @@ func c05value(r *vu.RNG, tiny bool) []byte {
 	l := lens[r.Intn(len(lens))]
 	if tiny {
 		l = r.Intn(3)
+	}
+	if !tiny && r.Chance(1, 40) {
+		l = []int{63, 65, 300, 16383, 16384, 16400}[r.Intn(6)]
 	}
 	b := r.Bytes(l)
 	if r.Chance(1, 8) {
@@ -364,6 +379,9 @@ func c05Gen(r *vu.RNG, n int, emit func(string)) {
 		np := 1 + r.Intn(9)
 		if r.Chance(1, 25) {
 			np = 0
+		}
+		if r.Chance(1, 12) {
+			np = 20 + r.Intn(25) // a big state: full branches, deeper paths
 		}
 		for j := 0; j < np; j++ {
 			k := c05key(r)
